@@ -22,7 +22,8 @@
 (*   barter/src/engine/state/instrument/mod.rs                             *)
 (*     InstrumentState::update_from_trade      -> Fill                     *)
 (*     InstrumentState::update_from_market     -> Mark(price()) when a     *)
-(*         position is open and the data state yields a price              *)
+(*         position is open and the data state yields a price, else        *)
+(*         MarkNoPrice (both early returns: a stutter for the position)    *)
 (*   barter/src/engine/state/mod.rs                                        *)
 (*     EngineState::update_from_account (Trade arm), update_from_market    *)
 (*         are the entry points the harness drives.                        *)
